@@ -13,7 +13,7 @@ RULE = ("random valid bracketed programs (lets, aliases, macros called with inte
         "values, ids of containers, native gate table keys, generated text, repr) of the input taken before must equal the one after, and "
         "results on the shared object must equal results on a freshly parsed copy; non-trivial = the sequence contains a transformation")
 BOUND = "n <= 3, depth <= 2, sequences of length <= 2 (thorough: 3) of 9 entry points"
-BUDGET_S = {"quick": 45, "thorough": 900}
+BUDGET_S = {"quick": 45, "thorough": 400}
 
 
 def snapshot(c):
